@@ -10,7 +10,7 @@ HEADER_ID = 1329743186   # "REBO" read as a little-endian uint32
 
 
 # ----------------------------------------------------------------------------- stream format (written from the
-# format description: 64 byte header; fields {u32 type, 4 pad, u64 size} + payload; END field; 16 byte blob trailer)
+# format description: 64 byte header; fields {u32 type, 4 pad, u64 size} + payload; END field; 12 byte blob trailer)
 class StreamError(Exception):
     pass
 
